@@ -336,6 +336,7 @@ impl World {
             Op::Snapshot { r } => self.op_snapshot(*r),
             Op::StageSave { r, keep } => self.op_stage_save(*r, *keep),
             Op::StageRestore { r, older } => self.op_stage_restore(*r, *older),
+            Op::StageForeign { r, from } => self.op_stage_foreign(*r, *from),
             Op::ObjOp { r, kind, id_sel, fields } => self.op_objop(*r, *kind, *id_sel, fields),
             Op::Send { from, to, sel, delay, dup, drop } => self.op_send(*from, *to, *sel, *delay, *dup, *drop),
             Op::SendAll { from, to } => self.op_sendall(*from, *to),
@@ -1501,7 +1502,7 @@ impl World {
         let m = self.live(r);
         let rp = self.call("replay_stage", || m.replay_stage(&exp))?;
         self.bump("probe.stage_roundtrip");
-        if self.is(&["C15", "C19"]) {
+        if self.is(&["C15", "C19", "C06"]) {
             if let Some(s0) = &self.replicas[r].clean_digest {
                 if s0 != &mid {
                     viol!(self, "unstage-restores", "unstage-differs", "unstage (inside export/replay) did not restore the clean state: {}", diff_digest(s0, &mid));
@@ -1585,6 +1586,40 @@ impl World {
                 }
                 self.bump("probe.stage_restored_noop");
             }
+        }
+        Ok(())
+    }
+
+    /// Staged work of `from` replayed on `r` (no commit, no storage involved).
+    fn op_stage_foreign(&mut self, r: usize, from: usize) -> Res {
+        if r == from || from >= self.replicas.len() || self.partitioned(r, from) || self.replicas[r].time_travel || self.replicas[from].time_travel {
+            return Ok(());
+        }
+        // a stage builds on its author's committed history: it is only well-formed input for a replica that has
+        // applied all of that history
+        let heads = |d: &Value| -> BTreeSet<String> { d["heads"].as_array().map(|h| h.iter().filter_map(|x| x.as_str().map(|s| s.to_string())).collect()).unwrap_or_default() };
+        let (hf, hr) = (heads(&self.digest_of(from)?), heads(&self.digest_of(r)?));
+        let upto = RefState::from_items_until(&self.replicas[r].disk.items(), Some(&hr));
+        if !hf.iter().all(|h| upto.complete.contains(h)) {
+            return Ok(());
+        }
+        let mf = self.live(from);
+        let live_exp: Option<Value> = self.call("stage", || mf.stage().ok().flatten())?;
+        let exp: Option<Value> = match live_exp {
+            Some(e) => Some(e),
+            None => match self.replicas[from].saved_stage.clone() {
+                Some(e) => e,
+                None => return Ok(()),
+            },
+        };
+        let m = self.live(r);
+        let _ = self.call("replay_stage", || m.replay_stage(&exp).map_err(|e| e.to_string()))?;
+        self.replicas[r].model_doc = None;
+        self.bump("probe.stage_foreign");
+        if self.is(&["C06"]) {
+            // metamorphic check of the merged read: the same staged state rebuilt from its own export (discard,
+            // replay) must read the same — a concurrent array version that arrived by replay is merged like any other
+            self.op_stage_roundtrip(r)?;
         }
         Ok(())
     }
